@@ -441,6 +441,9 @@ def run(res, tier):
 
     priv_rule(res, fx)
     teardown_rule(res, fx)
+    # marks are placed by pattern matching (NodeCreated) and removed by traversal (Cleanup, RemoveParameter): the traversal's literal-lookup fast path must name the same nodes
+    from .C05 import clause_lookup_rules
+    clause_lookup_rules(res, fx, 'TEARDOWN-PAIR')
     res.explanation = ('Static decision of the ownership structure of the reflect session: %d DoTraversal sites classified from the callbacks\' own code, every mutating/collecting traversal is rooted at '
                        '*_sessionDir(); the receivers of all direct DataNode mutator calls are traced (reaching definitions, GetChild/GetParent/InsertOrderedChild algebra, callback and container provenance, '
                        'one-level interprocedural for helper parameters) to the own subtree; subscriber-mark edits use the own session id; kick/ban forwarding is privilege-guarded; privilege bits are '
